@@ -76,6 +76,12 @@ CInit ==
     /\ ReadOrder = "count_then_ptr"
     /\ Barrier = "both"
 
+\* the two classic mistakes, for the self-test: the induction must fail for them
+CInitPtrFirst == Readers = {1, 2, 3} /\ Ptrs = {0, 1, 2, 3, 4, 5} /\ ReadOrder = "ptr_then_count" /\ Barrier = "both"
+CInitNoBarrier == Readers = {1, 2, 3} /\ Ptrs = {0, 1, 2, 3, 4, 5} /\ ReadOrder = "count_then_ptr" /\ Barrier = "none"
+\* non-vacuity of IndInit: a state inside IndInv with the writer about to free and a reader holding
+Witness == ~(wpc = "free" /\ \E r \in Readers : rpc[r] = "p")
+
 Init ==
     /\ gen = 0 /\ cnt = [s \in Slots |-> 0] /\ ptr = 0 /\ freed = {}
     /\ rpc = [r \in Readers |-> "idle"] /\ rgen = [r \in Readers |-> 0]
@@ -159,7 +165,8 @@ NoUseAfterFree == \A r \in Readers : Holding(r) => rptr[r] \notin freed
 
 TypeOK ==
     /\ gen \in Slots
-    /\ cnt \in [Slots -> 0..Cardinality(Readers)]
+    /\ cnt \in [Slots -> Int]
+    /\ \A s \in Slots : cnt[s] >= 0 /\ cnt[s] <= Cardinality(Readers)
     /\ ptr \in Ptrs
     /\ freed \in SUBSET Ptrs
     /\ rpc \in [Readers -> RPcs]
